@@ -2,6 +2,7 @@ package qos
 
 import (
 	"context"
+	"encoding/binary"
 	"fmt"
 	"net"
 	"os"
@@ -330,5 +331,9 @@ func (m *Manager) GetSubscriberCount() int {
 // ipToKey converts an IPv4 address to a uint32 key (network byte order)
 func ipToKey(ip net.IP) uint32 {
 	ip4 := ip.To4()
-	return uint32(ip4[0])<<24 | uint32(ip4[1])<<16 | uint32(ip4[2])<<8 | uint32(ip4[3])
+	// The eBPF programs look the bucket up with ip->daddr / ip->saddr, i.e. with
+	// the four address bytes in network order as they appear in the packet.
+	// Map keys are marshalled in native byte order, so the integer has to be
+	// built natively from the bytes to keep them in that order.
+	return binary.NativeEndian.Uint32(ip4)
 }
